@@ -48,7 +48,7 @@ type c16Rig struct {
 var errInjectedDial = errors.New("verif: injected dial failure")
 
 // c16 fault kinds: where and how an attempt is disturbed
-var c16Faults = []string{"none", "dial-fails", "drop-request", "drop-host-inputs", "cut-after-host-inputs", "drop-renter-signatures", "corrupt-renter-contract-signature", "corrupt-renter-input-signature", "truncate-renter-signatures", "drop-final-response", "corrupt-host-inputs", "corrupt-final-set"}
+var c16Faults = []string{"none", "dial-fails", "drop-request", "drop-host-inputs", "cut-after-host-inputs", "drop-renter-signatures", "corrupt-renter-contract-signature", "corrupt-renter-input-signature", "truncate-renter-signatures", "drop-final-response", "corrupt-host-inputs", "corrupt-final-set", "corrupt-host-contract-signature", "corrupt-host-renewal-signature"}
 
 func (c *c16Rig) faultHook(kind string, armed *bool) simrhp.Hook {
 	e := c.e
@@ -132,6 +132,43 @@ func (c *c16Rig) faultHook(kind string, armed *bool) simrhp.Hook {
 				bump(m.TransactionSet)
 			case *proto4.RPCRefreshContractThirdResponse:
 				bump(m.TransactionSet)
+			}
+			return fire(simrhp.Pass)
+		case (kind == "corrupt-host-contract-signature" || kind == "corrupt-host-renewal-signature") && step == 3:
+			// the host's final transaction carries its signature(s): on the new
+			// contract, and for renew / refresh also on the renewal itself
+			flip := func(set []types.V2Transaction) bool {
+				if len(set) == 0 {
+					return false
+				}
+				t := &set[len(set)-1]
+				if len(t.FileContracts) > 0 && kind == "corrupt-host-contract-signature" {
+					t.FileContracts[0].HostSignature[e.Intn(64)] ^= 1 << uint(e.Intn(8))
+					return true
+				}
+				for i := range t.FileContractResolutions {
+					if r, ok := t.FileContractResolutions[i].Resolution.(*types.V2FileContractRenewal); ok {
+						if kind == "corrupt-host-contract-signature" {
+							r.NewContract.HostSignature[e.Intn(64)] ^= 1 << uint(e.Intn(8))
+						} else {
+							r.HostSignature[e.Intn(64)] ^= 1 << uint(e.Intn(8))
+						}
+						return true
+					}
+				}
+				return false
+			}
+			ok := false
+			switch m := o.(type) {
+			case *proto4.RPCFormContractThirdResponse:
+				ok = flip(m.TransactionSet)
+			case *proto4.RPCRenewContractThirdResponse:
+				ok = flip(m.TransactionSet)
+			case *proto4.RPCRefreshContractThirdResponse:
+				ok = flip(m.TransactionSet)
+			}
+			if !ok {
+				return simrhp.Pass
 			}
 			return fire(simrhp.Pass)
 		}
@@ -380,10 +417,23 @@ func runC16(e *sim.Env) {
 	attempts := e.Range(3, 8)
 	for i := 0; i < attempts; i++ {
 		op := "form"
-		if c.contract != nil && c.rs == c.s && e.Chance(2, 3) {
+		if c.contract != nil && e.Chance(2, 3) {
 			op = []string{"renew", "refresh-full", "refresh-partial"}[e.Intn(3)]
+			if c.rs != c.s && c.relation == "same-tip" && e.Chance(1, 3) {
+				// the renter wanders off onto a fork the host never sees: the
+				// renewal of a confirmed contract now comes with a basis the host
+				// cannot update from
+				f := c.tree.ByID[c.rs.cm.Tip().ID]
+				for j, k := 0, e.Range(1, 3); j < k; j++ {
+					f = c.tree.Extend(e, f, gen.BlockOpts{Now: c.now, Miner: types.VoidAddress})
+					c.rs.cm.AddBlocks([]types.Block{f.Block})
+				}
+				c.syncAll()
+				c.relation = "unknown-fork-late"
+				e.Fault("renter-leaves-for-unknown-fork")
+			}
 		}
-		kind := c16Faults[e.Pick(3, 1, 1, 1, 1, 1, 1, 1, 1, 1, 1, 1)]
+		kind := c16Faults[e.Pick(3, 1, 1, 1, 1, 1, 1, 1, 1, 1, 1, 1, 1, 1)]
 		c.attempt(op, kind)
 		if op != "form" && c.contract != nil && e.Chance(1, 2) {
 			// renewed contracts cannot be renewed again from the old revision
@@ -400,8 +450,8 @@ var _ = sim.NewEnv
 
 func init() {
 	register(&Prop{
-		ID: "C16", Run: runC16, Quick: 300, Thorough: 8000, Level: "fault_enumeration",
-		Rule:        "one run = a drawn basis relation between renter and host node (shared node; two nodes at the same tip; renter behind by 1-10 blocks; renter on a fork the host has seen and left; renter on a fork the host never saw; optionally the renter's funds are unconfirmed outputs with pooled parents) and 3-8 form / renew / refresh (full, partial) attempts through the real client and server, each disturbed at one point of the exchange {none, dial fails, request dropped, host inputs dropped, stream cut after host inputs, renter signatures dropped / truncated mid-message, renter contract signature corrupted, renter input signature corrupted, final response dropped after the host recorded the contract, host inputs falsified, final set falsified}; oracles: success => renter and host hold the same doubly signed contract, the returned set is accepted by a fresh pool at the host's tip and, mined, creates exactly that contract with the agreed funding; failure => either the host completed the exchange (contract recorded AND its transaction pooled) or nobody keeps a trace: Balance and SpendableOutputs of BOTH wallets are identical to before; a final undisturbed formation must still succeed; distinct = (op, relation, fault, outcome) traces",
+		ID: "C16", Run: runC16, Quick: 1500, Thorough: 40000, Level: "fault_enumeration",
+		Rule:        "one run = a drawn basis relation between renter and host node (shared node; two nodes at the same tip; renter behind by 1-10 blocks; renter on a fork the host has seen and left; renter on a fork the host never saw - from the start, or only after a contract was formed and confirmed, so that renewals and refreshes meet it too; optionally the renter's funds are unconfirmed outputs with pooled parents) and 3-8 form / renew / refresh (full, partial) attempts through the real client and server, each disturbed at one point of the exchange {none, dial fails, request dropped, host inputs dropped, stream cut after host inputs, renter signatures dropped / truncated mid-message, renter contract signature corrupted, renter input signature corrupted, final response dropped after the host recorded the contract, host inputs falsified, final set falsified, the host's signature on the new contract or on the renewal corrupted in its final transaction}; oracles: success => renter and host hold the same doubly signed contract, the returned set is accepted by a fresh pool at the host's tip and, mined, creates exactly that contract with the agreed funding; failure => either the host completed the exchange (contract recorded AND its transaction pooled) or nobody keeps a trace: Balance and SpendableOutputs of BOTH wallets are identical to before; a final undisturbed formation must still succeed; distinct = (op, relation, fault, outcome) traces",
 		Real:        []string{"rhp4.Server (form/renew/refresh handlers)", "rhp4 RPCFormContract / RPCRenewContract / RPCRefreshContract* client", "wallet.SingleAddressWallet x2 (reservations)", "chain.Manager x1-2", "testutil.EphemeralContractor behind a recording wrapper"},
 		Stub:        []string{"transport: simrhp in-memory streams with typed relay and dial failures", "disk: simdisk.DB"},
 		Assumptions: []string{"renew / refresh attempts are only issued when renter and host share a node (the contract element must be known to both)"},
